@@ -463,7 +463,8 @@ pub fn build_set(graph: &SymbolicAsyncGraph, spec: &SetSpec) -> Result<Gcv, Stri
             let mut rng = Rng::new(*seed);
             let ctx = graph.symbolic_context();
             let vs = ctx.bdd_variable_set();
-            let state = ctx.state_variables().clone();
+            // all symbolic variables (state, spare, parameter): the BDD grows with every minterm
+            let state = vs.variables();
             let mut acc = vs.mk_false();
             for _round in 0..400 {
                 let mut layer: Vec<biodivine_lib_bdd::Bdd> = Vec::new();
@@ -851,6 +852,13 @@ pub fn check(world: &World, sc: &C16, sandbox: &str) -> Report {
     let path = if sc.nested_path { format!("{io_dir}/new/dir/results.zip") } else { format!("{io_dir}/results.zip") };
     let cx = Ctx16 { model_text: bn.to_string(), bn, graph, k: world.k, inmem, path, io_dir };
     rep.probe("labels", cx.inmem.len() as u64);
+    for (l, set) in &cx.inmem {
+        let n = set.as_bdd().to_string().len() as u64;
+        rep.event(format!("set {l} serialised_bytes={n}"));
+        if n > 100_000 {
+            rep.probe("sets_with_text_over_100kB", 1);
+        }
+    }
     rep.probe("empty_sets", cx.inmem.values().filter(|s| s.is_empty()).count() as u64);
     rep.probe("open_sets", sc.sets.iter().filter(|(_, s)| matches!(s, SetSpec::Open(_))).count() as u64);
 
